@@ -449,7 +449,9 @@ func execOp(ctx context.Context, st any, g *Graph, op SOp) SRes {
 		})
 		return SRes{Err: errClass(err), List: out}
 	case "gc":
-		return errRes(st.(interface{ GC(ctx context.Context) error }).GC(ctx))
+		return errRes(st.(interface {
+			GC(ctx context.Context) error
+		}).GC(ctx))
 	case "saveindex":
 		return SRes{Err: errClass(st.(interface{ SaveIndex() error }).SaveIndex())}
 	}
